@@ -42,7 +42,29 @@ def oracle(ctx, stream, case_lines, rep):
     return None
 
 
+def _distinct_tie_names(ctx):
+    """Distinct tie breaks get distinct fingerprints (and so distinct replay files): the correspondence break of a
+    stream is named after the stream, the kind of the first differing op and a hash of that op with both outputs."""
+    import hashlib
+    orig = ctx.tie_broken
+    if getattr(orig, "_c04", False):
+        return
+
+    def tie_broken(name, detail, extra=None):
+        if name.startswith("correspondence:") and isinstance(extra, dict) and extra.get("ops"):
+            ops = extra["ops"]
+            i = extra.get("first_difference_at_op", 0)
+            op = ops[i] if isinstance(i, int) and 0 <= i < len(ops) else ""
+            h = hashlib.sha1(("%s\n%s\n%s" % (op, extra.get("implementation"), extra.get("model"))).encode()).hexdigest()[:8]
+            name = "%s:%s:%s" % (name, (op.split(" ", 1)[0] or "none"), h)
+        return orig(name, detail, extra)
+
+    tie_broken._c04 = True
+    ctx.tie_broken = tie_broken
+
+
 def run(ctx):
+    _distinct_tie_names(ctx)
     ctx.rule = ("cases = random request/send sequences (1-40 ops) over 10 xDS types, names within {a,b,c}(+'*' for delta), "
                 "nonce in {empty,current,stale}, with/without error_detail, send ok/fail, biased to conformant ACKs; "
                 "distinct = hash of (ops, implementation outputs); non-trivial = at least one op")
@@ -99,6 +121,7 @@ def replay(ctx, path):
     if not ops:
         ctx.log("replay file has no ops; re-running the full check")
         return run(ctx)
+    _distinct_tie_names(ctx)
     if not (ctx.build_drv() and ctx.go_build()):
         return
     p = os.path.join(ctx.work, "replay.ops")
